@@ -995,6 +995,16 @@ def enum_sweeps(ctx):
         # wrong arities: 0 .. 5 arguments of a plain value
         for a in range(0, 6):
             yield dict(sweep_case(fname, [N(1)] * a, labels=["arity:%d" % a]), part="sweep")
+        # named invocations with a parameter left out, misspelled, given twice, or with a foreign extra one; no parameters at all
+        for alt in alts:
+            vals = [kind_values(named_kind(fname, p))[0] for p in alt]
+            for i in range(len(alt)):
+                yield dict(sweep_case(fname, vals[:i] + vals[i + 1:], alt[:i] + alt[i + 1:], labels=["named:omitted"]), part="sweep")
+                yield dict(sweep_case(fname, vals, alt[:i] + ["zz"] + alt[i + 1:], labels=["named:misspelled"]), part="sweep")
+                yield dict(sweep_case(fname, vals, alt[:i] + [alt[i].upper()] + alt[i + 1:], labels=["named:misspelled"]), part="sweep")
+                yield dict(sweep_case(fname, vals + [vals[i]], alt + [alt[i]], labels=["named:twice"]), part="sweep")
+            yield dict(sweep_case(fname, vals + [N(1)], alt + ["zz"], labels=["named:extra"]), part="sweep")
+            yield dict(sweep_case(fname, vals[:1], ["zz"], labels=["named:misspelled"]), part="sweep")
         for sig, names in variants:
             base = [kind_values(k)[0] for k in sig]
             wraps = ["{X}", "string({X})"] + (["{X} = {X}", "{X} < {X}", "{X} - {X}", "{X}.time offset", "{X}.weekday"] if fname in TEMPORAL_FUNCS else [])
